@@ -155,10 +155,12 @@ def run(ctx):
     quick = ctx.quick
     scns_r, st1 = scen.generate(ctx, None, ("MC_EKF", "MC_C08_sim.cfg"), sim_num=(40 if quick else 900), sim_depth=100)
     scns_f, st2 = scen.generate(ctx, None, ("MC_EKF", "MC_C08fn_sim.cfg"), sim_num=(16 if quick else 500), sim_depth=100)
-    for s_, st_ in ((scns_r, st1), (scns_f, st2)):
+    # large programs: 12-15 grown nodes, 3 states, up to 5 readings -- blocks with more than ten temporaries
+    scns_b, st3 = scen.generate(ctx, None, ("MC_EKF", "MC_C08big_sim.cfg"), sim_num=(16 if quick else 300), sim_depth=140)
+    for s_, st_ in ((scns_r, st1), (scns_f, st2), (scns_b, st3)):
         if s_ is None:
             ctx.violation("spec-invariant", st_["tlc_violation"][:800], st_)
-    scns = (scns_r or []) + (scns_f or [])
+    scns = (scns_b or []) + (scns_r or []) + (scns_f or [])
     # (1) values with CSE off and on, both back-ends, against the spec
     r_py = scen.replay_all(ctx, scns, cse_settings=(False, True), force_ekf=True)
     c_py = scen.record_results(ctx, r_py, key_prefix="py:")
@@ -166,7 +168,7 @@ def run(ctx):
     r_cpp = cppcheck.replay_cpp(ctx, scns[:ncpp], cse_settings=(False, True), kind="ekf")
     c_cpp = cppcheck.record(ctx, r_cpp, key_prefix="cpp:")
     # (2) translation validation of every extracted program
-    res = workers.run_tasks([("props.c08", "extract", ({k: v for k, v in s.items() if not k.startswith("_")},), 300) for s in scns], procs=ctx.cores)
+    res = workers.run_tasks([("props.c08", "extract", ({k: v for k, v in s.items() if not k.startswith("_")},), 600) for s in scns], procs=ctx.cores)
     events, owner = [], []
     ndrop = 0
     for s, (status, out) in zip(scns, res):
@@ -206,7 +208,9 @@ def run(ctx):
     cov = {"programs": len(events), "disagreements_checked": len(events) + nfn,
            "samples": [{k: sample[k] for k in ("side", "kind", "key", "cse", "inputs", "prefix", "outs")}] if sample else [],
            "programs_with_temporaries": with_tmp, "unparsable_dropped": ndrop,
-           "states": st1.get("states", 0) + st2.get("states", 0) + (tres.distinct if tres else 0),
+           "max_temporaries_in_one_program": max([len(e["prefix"]) for e in events] or [0]),
+           "programs_with_more_than_10_temporaries": sum(1 for e in events if len(e["prefix"]) > 10),
+           "states": st1.get("states", 0) + st2.get("states", 0) + st3.get("states", 0) + (tres.distinct if tres else 0),
            "values_python": c_py, "values_cpp": c_cpp, "interp_values_cross_checked": nfn,
            "evaluations": len(events), "distinct_nontrivial": with_tmp,
            "rule": "program = one compiled block (model, process/control Jacobian, sensor model, sensor Jacobian) of one definition, Python with CSE "
